@@ -171,7 +171,10 @@ def call_real(case, tmp, tid, cli):
     from mokapot.parsers.pin_to_tsv import is_valid_tsv, pin_to_valid_tsv
     text = case["text"]
     lines_in, nl_in = split_text(text)
-    tr = {"lines_in": lines_in, "nl_in": nl_in, "raised": "", "lines_out": [], "nl_out": False,
+    sep = case.get("sep", ":")
+    kw = {} if sep == ":" else {"sep_protein": sep}          # the CLI calls it without the argument
+    cli = cli and sep == ":"
+    tr = {"sep": sep, "lines_in": lines_in, "nl_in": nl_in, "raised": "", "lines_out": [], "nl_out": False,
           "lines_out2": [], "nl_out2": False, "valid_in": False, "valid_out": False,
           "second_pass_equal": False, "cli": {"ran": False, "lines": [], "nl": False}}
     p_in = os.path.join(tmp, "c%d.pin" % tid)
@@ -188,7 +191,7 @@ def call_real(case, tmp, tid, cli):
         try:
             with open(p_in, "r") as f_pin:                   # mokapot.py:70-72
                 with open(p_out, "a") as f_tsv:
-                    pin_to_valid_tsv(f_in=f_pin, f_out=f_tsv)
+                    pin_to_valid_tsv(f_in=f_pin, f_out=f_tsv, **kw)
         finally:
             if os.path.exists(p_out):
                 with open(p_out) as fh:
@@ -200,7 +203,7 @@ def call_real(case, tmp, tid, cli):
         step = "pin_to_valid_tsv(output)"
         with open(p_out, "r") as f_pin:
             with open(p_out2, "a") as f_tsv:
-                pin_to_valid_tsv(f_in=f_pin, f_out=f_tsv)
+                pin_to_valid_tsv(f_in=f_pin, f_out=f_tsv, **kw)
         with open(p_out2) as fh:
             text2 = fh.read()
         tr["lines_out2"], tr["nl_out2"] = split_text(text2)
@@ -323,6 +326,10 @@ def run(ctx):
     for _ in range(400 if ctx.quick else 6000):
         cases.append(random_case(rng))
     cases.extend(ood_cases())
+    # the protein separator is a parameter of the API (the CLI uses ":"): rotate it over the cases
+    for k, c in enumerate(cases):
+        if isinstance(c, dict):
+            c["sep"] = [":", ":", ";", ","][(k + ctx.seed) % 4]
     # ---------------- drive the real code ----------------
     cli = not ctx.quick
     if cli:
